@@ -16,5 +16,5 @@ Definition EXTRACT_SAFE_WRITES : N := (262144)%N.
 Definition DEFAULT_DIR_MODE : N := (511)%N.
 Definition MINIMUM_DIR_MODE : N := (448)%N.
 Definition MAXIMUM_DIR_MODE : N := (509)%N.
-Definition CLOSE_CHECKS_FIXUP_PATH : bool := false.
+Definition CLOSE_CHECKS_FIXUP_PATH : bool := true.
 Definition HARDLINK_DATA_NONREG_CLEARS_TODO : bool := true.
